@@ -8,7 +8,7 @@ name=$1; patch=$2; shift 3
 dir=/tmp/mut/$name
 mkdir -p /tmp/mut
 git -C /repo worktree remove --force "$dir" 2>/dev/null
-git -C /repo worktree add --detach "$dir" HEAD >/dev/null 2>&1 || exit 9
+git -C /repo worktree add --detach "$dir" "${MUT_BASE:-HEAD}" >/dev/null 2>&1 || exit 9
 if [[ "$patch" == sed:* ]]; then
   IFS=: read -r _ file expr <<<"$patch"
   sed -i -E "$expr" "$dir/$file"
